@@ -5,6 +5,11 @@ HERE = os.path.dirname(os.path.abspath(__file__))
 ALL = ["C%02d" % i for i in range(1, 19)]
 
 CHECKS = {
+ "C07": dict(
+   technique="TLA+ model XtEncoding of the re-encoder model-checked with TLC over all unit-class sequences and read schedules; reference decodings replayed on the real encoder; encoded YAML runs validated by TLC against XtObs",
+   text="TLC checks that the model of Utf16Decoder/Utf32Decoder/Utf8Encoder::read delivers exactly the UTF-8 bytes of the well-formed prefix whatever the read sizes, reports every ill-formed class as an error and detects the encoding of any stream starting with ASCII or a BOM; each unit-class sequence is replayed with concrete boundary code units on the real encoder under many read sizes and source chunkings; YAML texts in the eight encodings must translate exactly like the UTF-8 text from slices and readers.",
+   note="Unit sequences up to 4 units are exhaustive by class; concrete code units are class edges (quick) or all BMP scalars and surrogate pairs (thorough).",
+   design_ref="DESIGN.md 4.5, 6 (C07)"),
  "C11": dict(
    technique="TLA+ model XtTranscode of stream.rs model-checked with TLC; every case replayed on the real transcoder with scripted serde objects; error texts of planted failures validated by TLC against XtErrText",
    text="TLC evaluates the model of the transcoder's error plumbing for every tree of up to 5 nodes and every fault plan (each step of the serializer or deserializer failing) and checks attribution; each case, with its predicted variant, error identities and exact step sequence, is replayed on the real generic transcoder. End to end, translations with a planted syntax error, an unrepresentable value at a random path, or a writer failing at every output byte are recorded and TLC checks the text rules.",
